@@ -142,6 +142,10 @@ def write_guard(repo: Repo) -> RuleRun:
         label = f"fixed={fixed_idx}{' (by position)' if by_pos else ''}"
         r.check(moved == want, smooth, f"{label}: moved {sorted(moved)}", f"smooth() with {label} moves points {sorted(moved)}; only the free interior points {sorted(want)} may move (boundary {sorted(boundary)} and fixed points must stay)", smooth.node, key=f"moved:{label}")
         r.check(any(c[0] == "backport" for c in calls), smooth, "backport() called", "smooth() does not copy the result back (backport not called)", smooth.node, key=f"backport:{label}")
+    # fix_points identifies a junction by coincidence within the merge tolerance
+    cmps = [n for n in ast.walk(fixp.node) if isinstance(n, ast.Compare)]
+    ok_tol = len(cmps) == 1 and isinstance(cmps[0].ops[0], ast.Lt) and ast.unparse(cmps[0].comparators[0]).split(".")[-1] == "TOL" and isinstance(cmps[0].left, ast.Call) and (attr_chain(cmps[0].left.func) or "").split(".")[-1] == "norm"
+    r.check(ok_tol, fixp, "fix_points: norm(point - junction.point) < TOL", f"SmootherBase.fix_points matches points with '{ast.unparse(cmps[0]) if cmps else '?'}' instead of coincidence within TOL: points the user never fixed stay put", fixp.node, key="fix_points:tol")
     # value written = average of the *current* neighbour points, axis 0 (Gauss-Seidel order)
     inner0, js_, before, after, calls, this = run_smooth([])
     cur = list(before)
